@@ -222,6 +222,12 @@ func (d *Object) UnmarshalJSON(data []byte) error {
 	return nil
 }
 
+// CheckNullElements ensures that the provided object, as unmarshalled from
+// JSON, does not contain any arrays with null entries.
+func CheckNullElements(obj any) error {
+	return checkNullElements(reflect.ValueOf(obj), 0)
+}
+
 // checkNullElements walks through the unmarshalled payload and ensures that
 // none of the arrays contain a null entry, as these would otherwise end up as
 // nil pointers that the rest of the library does not expect to deal with.
